@@ -311,22 +311,25 @@ class SigWorld(object):
         return art
 
     # ------------------------------------------------------------------
-    def pgpy_verify(self, art):
+    def pgpy_verify(self, art, copies=False):
         """Verifier side: everything is re-imported from octets.  Returns the
-        SignatureVerification (or raises whatever PGPy raises)."""
+        SignatureVerification (or raises whatever PGPy raises).  copies: the verifier works on copy.copy()
+        of every object it parsed (callers pass objects around; a copy must judge like the original)."""
+        import copy as _copy
         pgpy = self.pgpy
-        K = pgpy.PGPKey.from_blob(art.verifier)[0]
+        cp = _copy.copy if copies else (lambda x: x)
+        K = cp(pgpy.PGPKey.from_blob(art.verifier)[0])
         s = art.subject
         if s['t'] == 'msg':
-            return K.verify(pgpy.PGPMessage.from_blob(s['bytes']))
+            return K.verify(cp(pgpy.PGPMessage.from_blob(s['bytes'])))
         if s['t'] == 'cleartext':
-            return K.verify(pgpy.PGPMessage.from_blob(s['armored']))
-        sig = pgpy.PGPSignature.from_blob(art.sig)
+            return K.verify(cp(pgpy.PGPMessage.from_blob(s['armored'])))
+        sig = cp(pgpy.PGPSignature.from_blob(art.sig))
         if s['t'] == 'doc':
             return K.verify(s['data'].decode('utf-8') if s.get('as_str') else s['data'], sig)
         if s['t'] == 'none':
             return K.verify(None, sig)
-        T = pgpy.PGPKey.from_blob(s['keybytes'])[0]
+        T = cp(pgpy.PGPKey.from_blob(s['keybytes'])[0])
         if s['t'] == 'key':
             return K.verify(T, sig)
         if s['t'] == 'uid':
